@@ -126,3 +126,29 @@
         assert!(r.is_ok());
         unsafe { LAST }
     }
+
+    /// Two scalar events denote the same JSON value: integers compare by numeric value whatever their width (the property
+    /// does not prescribe the internal representation, only that the value and the document are preserved); floats must keep
+    /// their width and bits (a widened f32 prints differently); everything else must be identical.
+    pub fn equiv(a: Ev, b: Ev) -> bool {
+        fn int(e: Ev) -> Option<(bool, u128)> {
+            match e {
+                Ev::I8(x) => Some((x < 0, (x as i128).unsigned_abs())),
+                Ev::I16(x) => Some((x < 0, (x as i128).unsigned_abs())),
+                Ev::I32(x) => Some((x < 0, (x as i128).unsigned_abs())),
+                Ev::I64(x) => Some((x < 0, (x as i128).unsigned_abs())),
+                Ev::I128(x) => Some((x < 0, x.unsigned_abs())),
+                Ev::U8(x) => Some((false, x as u128)),
+                Ev::U16(x) => Some((false, x as u128)),
+                Ev::U32(x) => Some((false, x as u128)),
+                Ev::U64(x) => Some((false, x as u128)),
+                Ev::U128(x) => Some((false, x)),
+                _ => None,
+            }
+        }
+        match (int(a), int(b)) {
+            (Some(x), Some(y)) => x == y,
+            (None, None) => a == b,
+            _ => false,
+        }
+    }
